@@ -104,6 +104,11 @@ def optBind {α β : Type} (l : List α) (f : α → Option (List β)) : Option 
     | some x, some r => some (x ++ r)
     | _, _ => none) (some [])
 
+/-- the variables that occur in some constraint (`ConstraintAnalysis::is_constrained`, after the `fix:`: also a variable that is
+    the only one of its constraint) -/
+def consVars (fs : List Fact) : List V :=
+  fs.flatMap (fun f => match f with | .constraint us _ => us | _ => [])
+
 /-- the sink set of `run_side_effect_analysis` -/
 def Def.sinks (d : Def) : Option (List V) :=
   let es := edges d.facts
@@ -113,7 +118,7 @@ def Def.sinks (d : Def) : Option (List V) :=
   | some b =>
     match optBind b (fun s => match multiStepCons cs d.fuel s with
         | none => none
-        | some r => some (if r.isEmpty then [] else s :: r)) with
+        | some r => some (if (consVars d.facts).contains s then s :: r else r)) with
     | none => none
     | some c => some (c ++ d.exported ++ d.facts.flatMap sinkReadsOf)
 
@@ -159,7 +164,7 @@ def Prog.facts {Val : Type} (p : Prog Val) : List Fact := p.flatMap (fun b => b.
 /-- what the property counts as an effect -/
 inductive Event (Val : Type)
   | wr (w : V) (v : Val)           -- value assigned to an input or output signal
-  | cs (vs : List Val)             -- a constraint mentioning such a signal
+  | cs (vs : List Val)             -- a constraint mentioning such a signal (in its text or through the symbolic value of a local)
   | obs (vs : List Val)            -- assertion / return value
   | dim (vs : List Val)            -- array dimensions
   | br (b : Bool)                  -- branch decision
@@ -173,7 +178,7 @@ structure State (Val : Type) where
 
 def vals {Val : Type} (env : V → Val) (rs : List V) : List Val := rs.map env
 
-def step {Val : Type} (exported : List V) (p : Prog Val) (s : State Val) : State Val :=
+def step {Val : Type} (exported mention : List V) (p : Prog Val) (s : State Val) : State Val :=
   if s.halted then s else
   match p[s.blk]? with
   | none => { s with halted := true }
@@ -196,11 +201,11 @@ def step {Val : Type} (exported : List V) (p : Prog Val) (s : State Val) : State
       | .observe rs => { s with idx := s.idx + 1, trace := s.trace ++ [.obs (vals s.env rs)] }
       | .constraint us _ =>
         { s with idx := s.idx + 1,
-                 trace := if us.any (fun u => exported.contains u) then s.trace ++ [.cs (vals s.env us)] else s.trace }
+                 trace := if us.any (fun u => mention.contains u) then s.trace ++ [.cs (vals s.env us)] else s.trace }
       | .other _ => { s with idx := s.idx + 1 }
 
-def run {Val : Type} (exported : List V) (p : Prog Val) : Nat → State Val → State Val
+def run {Val : Type} (exported mention : List V) (p : Prog Val) : Nat → State Val → State Val
   | 0, s => s
-  | k + 1, s => run exported p k (step exported p s)
+  | k + 1, s => run exported mention p k (step exported mention p s)
 
 end Circomspect.Taint
